@@ -270,6 +270,26 @@ class SimCtl:
                         continue
                     res.append(BAD); info.append("initialize accepted while running")
                     continue
+                elif k in ("hstart", "hrun", "hstep"):
+                    # a run command issued from a handler (the simulator is running): refused, and a refused command
+                    # changes nothing -- in particular not the bound of the run in progress
+                    if not sim.is_starting_or_running():
+                        res.append(0); info.append("skipped: not running")
+                        continue
+                    try:
+                        if k == "hstart":
+                            sim.start()
+                        elif k == "hstep":
+                            sim.step()
+                        elif rank % 2 == 0:
+                            sim.run_up_to(sim.simulator_time)
+                        else:
+                            sim.run_up_to_including(sim.simulator_time)
+                    except DSOLError:
+                        res.append(0); info.append("DSOLError")
+                        continue
+                    res.append(BAD); info.append(f"{k} accepted while running")
+                    continue
                 else:
                     raise ValueError(k)
                 self.next_rank = rank
